@@ -210,6 +210,13 @@ func projectColumns(selectList sql.SelectList, qfields storage.Fields, rows []*s
 				return nil, err
 			}
 			lookup[col] = idx
+		default:
+			// a comparison or boolean expression: resolve its column
+			// references here, so that unknown and ambiguous names are
+			// rejected even when there is no row to evaluate it on
+			if err := checkColumnRefs(elem, qfields); err != nil {
+				return nil, err
+			}
 		}
 	}
 
